@@ -128,7 +128,9 @@ pub fn check_text(reference_text: &str, g: Gen, span: usize) -> Result<Option<()
             luaprint::print_plain(&b)
         ));
     }
-    if !census(&reference.block).any_luau() && out.is_ascii() && luasyn::parse(reference_text, Mode::Lua51).is_ok() {
+    // known finding unicode-escape-not-lua51: non-ASCII text is written with the Luau-only `\u{...}`
+    let avoid_unicode = AVOID_UNICODE.load(std::sync::atomic::Ordering::Relaxed);
+    if !census(&reference.block).any_luau() && (reference_text.is_ascii() || !avoid_unicode) && luasyn::parse(reference_text, Mode::Lua51).is_ok() {
         if let Err(e) = luasyn::parse::parse_with_options(&out, Mode::Lua51, luasyn::parse::ParseOptions { check_loop_context: false, check_vararg_context: false }) {
             return Err(format!("{:?} output (span {}) of a Lua 5.1 tree is not valid Lua 5.1: {} (line {})\n--- reference\n{}\n--- output\n{}", g, span, e.msg, e.line, reference_text, out));
         }
@@ -303,7 +305,10 @@ pub fn corpus() -> Vec<String> {
 
 const QUICK_SPANS: [usize; 8] = [0, 1, 2, 5, 8, 20, 80, 120];
 
+static AVOID_UNICODE: std::sync::atomic::AtomicBool = std::sync::atomic::AtomicBool::new(false);
+
 fn run(ctx: &RunCtx) {
+    AVOID_UNICODE.store(ctx.avoid("unicode-escape-not-lua51"), std::sync::atomic::Ordering::Relaxed);
     let corp = corpus();
     ctx.add_class("corpus_trees", corp.len() as u64);
     let spans: Vec<usize> = match ctx.tier {
